@@ -48,7 +48,10 @@ REAL_COMPONENTS = ["persim.visuals.plot_diagrams / bottleneck_matching / wassers
                    "matplotlib pyplot state machine (real)", "persim.bottleneck / wasserstein (matchings)",
                    "persim.landscapes.visuals.plot_landscape_simple (background traffic)"]
 STUB_COMPONENTS = ["builtin set inside hopcroftkarp -> SimSet when computing the matchings that are plotted"]
-ENV = ("nothing", "nothing", "sca-other", "sca-other", "new-figure", "close-stray", "figure-other")
+ENV = ("nothing", "nothing", "sca-other", "sca-other", "new-figure", "close-stray", "figure-other", "rcparams")
+RC_CHOICES = (("axes.titlelocation", "left"), ("axes.titlelocation", "right"), ("lines.linewidth", 3.0),
+              ("scatter.marker", "x"), ("axes.xmargin", 0.3), ("lines.linestyle", ":"), ("axes.grid", True),
+              ("legend.loc", "upper left"), ("font.size", 7.0))
 
 
 def reset_world():
@@ -265,8 +268,10 @@ def check_plot_diagrams(ax, new_colls, new_lines, dgms, opts, site, opi):
             if vals and not (min(lim) <= min(vals) and max(vals) <= max(lim)):
                 raise Violation("limits-contain-finite-points", site, nm,
                                 "%s-limits %r do not contain the plotted values [%r, %r]" % (nm, lim, min(vals), max(vals)), opi)
-    if "title" in opts and ax.get_title() != opts["title"]:
-        raise Violation("title-as-requested", site, "differs", "title %r requested, axes has %r" % (opts["title"], ax.get_title()), opi)
+    if "title" in opts and opts["title"] not in (ax.get_title(loc="center"), ax.get_title(loc="left"), ax.get_title(loc="right")):
+        # which of the three title slots is used follows matplotlib's configuration; the text must be the requested one
+        raise Violation("title-as-requested", site, "differs", "title %r requested, axes has %r / %r / %r" % (
+            opts["title"], ax.get_title(loc="left"), ax.get_title(loc="center"), ax.get_title(loc="right")), opi)
     if ax.get_xlabel() != "Birth" or ax.get_ylabel() != ("Lifetime" if lifetime else "Death"):
         raise Violation("axis-labels", site, "differs", "axis labels %r / %r" % (ax.get_xlabel(), ax.get_ylabel()), opi)
     leg = ax.get_legend()
@@ -432,6 +437,11 @@ def run_case(case, sched):
             strays.append(f)
         elif env == "close-stray" and strays:
             plt.close(strays.pop(sched.choose(len(strays), "env.close")))
+        elif env == "rcparams":
+            # other code in the process configured matplotlib's defaults (its rcParams are process-global)
+            import matplotlib as _mpl
+            key_, val_ = RC_CHOICES[sched.choose(len(RC_CHOICES), "env.rc")]
+            _mpl.rcParams[key_] = val_
         elif env not in ("nothing", "sca-other", "figure-other", "new-figure", "close-stray"):
             raise InvalidCase("env")
         env_fired[env] = env_fired.get(env, 0) + 1
